@@ -126,7 +126,7 @@ PROPS = {
         theorems=[P + "C04." + t for t in ("grant_arms_lease", "no_timeout_no_lease", "lease_not_early", "lease_not_early_held", "lease_prompt", "renew_restarts",
                                           "renew_requires_lease", "dead_key_inert", "expired_is_not_held", "expired_key_dead", "dead_key_stays_dead")]
                  + ["Ldlm.Core.advanceTo_keeps_later", "Ldlm.Core.advanceTo_prompt", "Ldlm.Props.C12.lease_units_pinned", "Ldlm.Core.expiry_kills", "Ldlm.Core.Dead.step"],
-        streams=[SEQ],
+        streams=[SEQ, CONC],
         level_text="After the lease callback of a hold its (name, key) is dead, and a dead pair stays dead for every continuation of the history: never held again, Unlock with it fails (expired_key_dead, dead_key_stays_dead). Over M2 in exact virtual time, for every state satisfying the reachability invariant: a grant with lock timeout t stores a lease with deadline exactly now + t*10^9 (unit pinned to time.Second by a regenerated fact); advancing to any instant before a deadline leaves that lease and its hold in place (no early release); after an advance no lease with a deadline at or before the new time is left (prompt expiry; fuel exhaustion is reported, never silent) and a fired lease's hold is gone; a successful Renew sets the deadline to exactly now + t*10^9 and touches nothing else; Renew without a lease fails; a dead key's Unlock/Renew fail and change nothing. Tied to the code by seqdiff with time steps to deadline-1ns / deadline / deadline+1ns, renew with different T, renew after expiry, and an arithmetic lease monitor on the implementation trace.",
         level_note="'A hold taken without a lock timeout never expires' is proved as 'no lease is stored' (no_timeout_no_lease) + prompt/early theorems about stored leases; Renew of such a hold fails (renew_requires_lease) - the code's behaviour, stated. lease_not_early_held takes the reachability invariant InvS, which holds after every history including restarts (run_invS). Trusted: Lean kernel, time.AfterFunc/Timer semantics (modelled), synctest clock, hand-written M2.",
         technique="Lean 4 proof (induction over the event loop of `advance` under the reachability invariant) + virtual-time sequential differential + arithmetic lease monitor",
@@ -383,13 +383,13 @@ FPG = dict(
 )
 FPMAP = {
     "C01": ["lockobj", "mgr_get", "mgr_ops", "mgr_gc", "srv_lock", "srv_new"],
-    "C02": ["lockobj", "mgr_get", "mgr_ops", "srv_lock", "srv_unlock"],
+    "C02": ["lockobj", "mgr_get", "mgr_ops", "srv_lock", "srv_unlock", "srv_timeout", "timer"],
     "C03": ["lockobj", "mgr_ops", "mgr_shutdown", "srv_lock"],
     "C04": ["timer", "srv_lock", "srv_renew", "srv_timeout", "srv_unlock"],
     "C05": ["timer", "srv_unlock", "srv_renew", "srv_timeout", "mgr_ops"],
     "C06": ["srv_sess", "srv_lock", "srv_unlock", "srv_timeout", "sess", "grpc_conn", "rest_end", "lockobj"],
     "C07": ["srv_lock", "srv_unlock", "srv_renew", "srv_key", "mgr_get", "mgr_ops", "sess", "timer"],
-    "C08": ["srv_locks", "srv_unlock", "srv_timeout", "srv_sess", "sess", "store", "srv_new"],
+    "C08": ["srv_locks", "srv_unlock", "srv_renew", "srv_timeout", "srv_sess", "sess", "store", "srv_new"],
     "C09": ["store", "sess", "srv_lock", "srv_unlock", "srv_timeout"],
     "C10": ["srv_new", "srv_sess", "sess", "store", "srv_timeout", "srv_unlock", "srv_renew"],
     "C11": ["main", "mgr_shutdown", "srv_sess", "srv_new", "ipc_srv", "grpc_run", "rest_run", "timer", "lockobj", "mgr_ops"],
